@@ -822,7 +822,8 @@ class Client(ClientLike):
     def _drain(self, nbytes: int) -> bytes:
         """Consume the data section of a frame that cannot be decoded"""
         try:
-            return self._sock.recv(nbytes, socket.MSG_WAITALL)
+            # a corrupt header may announce a negative size: nothing to consume then
+            return self._sock.recv(max(nbytes, 0), socket.MSG_WAITALL)
         except ConnectionError as e:
             self._connected = False
             raise ConnectionLost from e
